@@ -831,6 +831,70 @@ fn headers_impl(t: &mut Tape, ctx: &mut Ctx, big: bool) -> R {
     Ok(())
 }
 
+// ---- fields of a megabyte and more (deterministic) -------------------------------------------------------
+
+/// Transactions and headers carrying one byte string of 2^20 − 1 … 2^21 bytes (below the decoder's 4 000 000
+/// bound, i.e. values the decoder produces): ids equal the reference hashes and a one-byte change deep inside
+/// the long field changes them.
+fn huge_fields(idx: u64, seed: u64, ctx: &mut Ctx) -> R {
+    const LENS: [usize; 4] = [(1 << 20) - 1, 1 << 20, (1 << 20) + 1, 1 << 21];
+    let len = LENS[(idx % 4) as usize];
+    let place = (idx / 4) % 4;
+    let fill = seeded_bytes(seed, idx, 64);
+    let mut bytes: Vec<u8> = (0..len).map(|k| fill[k % 64] ^ (k >> 6) as u8).collect();
+    let pos = len - 1 - (idx as usize % 1000);
+    let mut tape_bytes = seeded_bytes(seed ^ 0x5a5a, idx, 512);
+    tape_bytes[0] |= 1;
+    let mut t = Tape::new(&tape_bytes);
+    let what;
+    if place < 3 {
+        let mut tx = gen::gen_tx(&mut t, &TxOpts { max_in: 2, max_out: 2, ..Default::default() });
+        if tx.input.is_empty() {
+            tx.input.push(gen::gen_txin(&mut t, &TxOpts::default()));
+        }
+        if tx.output.is_empty() {
+            tx.output.push(gen::gen_txout(&mut t, &TxOpts::default()));
+        }
+        let set = |tx: &mut Transaction, b: &[u8]| match place {
+            0 => tx.output[0].script_pubkey = Script::from(b.to_vec()),
+            1 => tx.input[0].script_sig = Script::from(b.to_vec()),
+            _ => tx.input[0].witness.script_witness = vec![b.to_vec()],
+        };
+        what = ["script_pubkey", "script_sig", "script-witness item"][place as usize];
+        set(&mut tx, &bytes);
+        let (a, aw) = check_ids(&tx, ctx)?;
+        bytes[pos] ^= 0x01;
+        set(&mut tx, &bytes);
+        let (b, bw) = check_ids(&tx, ctx)?;
+        if place < 2 {
+            ensure!(a != b && aw != bw, "changing byte {} of a {}-byte {} does not change the txid / wtxid", pos, len, what);
+        } else {
+            ensure!(a == b && aw != bw, "changing byte {} of a {}-byte {}: the txid must stay and the wtxid must change", pos, len, what);
+        }
+    } else {
+        let mut h = gen::gen_header(&mut t);
+        what = "header challenge / signblockscript";
+        let set = |h: &mut BlockHeader, b: &[u8]| match &mut h.ext {
+            elements::BlockExtData::Proof { challenge, .. } => *challenge = Script::from(b.to_vec()),
+            elements::BlockExtData::Dynafed { current, .. } => {
+                *current = dynafed::Params::Compact { signblockscript: Script::from(b.to_vec()), signblock_witness_limit: 7, elided_root: dynafed::ElidedRoot::from_byte_array([9; 32]) }
+            }
+        };
+        set(&mut h, &bytes);
+        let a = check_hash(&h, ctx)?;
+        bytes[pos] ^= 0x01;
+        set(&mut h, &bytes);
+        let b = check_hash(&h, ctx)?;
+        ensure!(a != b, "changing byte {} of a {}-byte {} does not change the block hash", pos, len, what);
+    }
+    ctx.class(&format!("huge-field:{}:{}-bytes", what, len));
+    ctx.nontrivial(&idx);
+    if ctx.wants_sample("huge-field") {
+        ctx.sample("huge-field", || json!({"field": what, "bytes": len, "changed_byte": pos}));
+    }
+    Ok(())
+}
+
 pub fn property() -> Property {
     Property {
         id: "C02",
@@ -854,6 +918,7 @@ pub fn property() -> Property {
             Sub { name: "headers", kind: Kind::Tape { max_len: 2000, quick: 80_000, thorough: 1_200_000, f: headers } },
             Sub { name: "tx_ids_big", kind: Kind::Tape { max_len: 3000, quick: 8_000, thorough: 200_000, f: tx_ids_big } },
             Sub { name: "headers_big", kind: Kind::Tape { max_len: 2000, quick: 12_000, thorough: 300_000, f: headers_big } },
+            Sub { name: "huge_fields", kind: Kind::Index { count: |t| t.pick(16, 64), exhaustive: false, f: huge_fields } },
         ],
         known: vec![],
     }
